@@ -898,6 +898,11 @@ func (ctx Ctx) basicLiteral(e *ast.BasicLit) coq.Expr {
 		if strings.ContainsRune(s, '"') {
 			ctx.unsupported(e, "string literals with quotes")
 		}
+		if strings.ContainsRune(s, '\n') {
+			// the pretty-printer re-indents continuation lines, which would
+			// change the literal
+			ctx.unsupported(e, "string literals with newlines")
+		}
 		return coq.StringLiteral{Value: s}
 	}
 	if e.Kind == token.INT {
